@@ -10,15 +10,19 @@ import (
 // and(H) is equivalent to and(H, H[sk]) since every instance is implied by its quantified formula, so the rewrite
 // is sound in any polarity. It spares the solvers the e-matching through store/select chains they do badly.
 
-const hintCapPerForall = 64
-const hintCapTotal = 600
+const hintCapPerForall = 100
+const hintCapTotal = 1200
 
 // withInstHints adds the instances; with dropQ the quantified hypotheses themselves are then left out (only in
 // positive positions of the asserted formula, where leaving a conjunct out weakens it: unsat stays conclusive,
 // sat does not).
-func withInstHints(t *Term, dropQ bool) *Term {
+func withInstHints(t *Term, dropQ bool) *Term { return withInstHintsR(t, dropQ, 1) }
+
+// withInstHintsR: rounds > 1 repeats the matching on the instances of the previous round (the instances of the
+// first round bring new ground reads, e.g. "the array equals the old array at k" introduces old[k])
+func withInstHintsR(t *Term, dropQ bool, rounds int) *Term {
 	n := 0
-	return instHints(propagateAsserted(t), true, dropQ, &n, map[int64]*Term{})
+	return instHints(propagateAsserted(t), true, dropQ, &n, map[int64]*Term{}, rounds)
 }
 
 // propagateAsserted: a top-level conjunct of the asserted formula is true wherever else it occurs (unit
@@ -70,7 +74,7 @@ func propagateAsserted(t *Term) *Term {
 	return t
 }
 
-func instHints(t *Term, pos bool, dropQ bool, total *int, memo map[int64]*Term) *Term {
+func instHints(t *Term, pos bool, dropQ bool, total *int, memo map[int64]*Term, rounds int) *Term {
 	key := t.id
 	if !pos {
 		key = -key
@@ -81,7 +85,7 @@ func instHints(t *Term, pos bool, dropQ bool, total *int, memo map[int64]*Term) 
 	var r *Term = t
 	switch t.Op {
 	case "not":
-		in := instHints(t.Args[0], !pos, dropQ, total, memo)
+		in := instHints(t.Args[0], !pos, dropQ, total, memo, rounds)
 		if in != t.Args[0] {
 			r = Not(in)
 		}
@@ -90,7 +94,7 @@ func instHints(t *Term, pos bool, dropQ bool, total *int, memo map[int64]*Term) 
 			args := make([]*Term, len(t.Args))
 			ch := false
 			for i, a := range t.Args {
-				args[i] = instHints(a, pos, dropQ, total, memo)
+				args[i] = instHints(a, pos, dropQ, total, memo, rounds)
 				ch = ch || args[i] != a
 			}
 			if ch {
@@ -101,7 +105,7 @@ func instHints(t *Term, pos bool, dropQ bool, total *int, memo map[int64]*Term) 
 		args := make([]*Term, len(t.Args))
 		var foralls []*Term
 		for i, a := range t.Args {
-			args[i] = instHints(a, pos, dropQ, total, memo)
+			args[i] = instHints(a, pos, dropQ, total, memo, rounds)
 			if a.Op == "forall" {
 				foralls = append(foralls, a)
 			}
@@ -131,15 +135,43 @@ func instHints(t *Term, pos bool, dropQ bool, total *int, memo map[int64]*Term) 
 		}
 		var extra []*Term
 		if len(foralls) > 0 || len(gfs) > 0 {
-			sks := skolemsOf(t)
-			gsel := groundSelects(t)
-			for _, f := range foralls {
-				extra = append(extra, instancesOf(f, sks, gsel, total)...)
-			}
-			for _, g := range gfs {
-				for _, inst := range instancesOf(g.f, sks, gsel, total) {
-					extra = append(extra, Not(And(append(append([]*Term(nil), g.guards...), Not(inst))...)))
+			// two rounds: the instances of the first round bring new ground reads (e.g. "the array equals the old
+			// array at k" introduces old[k]) that the second round matches
+			seenInst := map[int64]bool{}
+			scan := t
+			for round := 0; round < rounds; round++ {
+				sks := skolemsOf(scan)
+				gsel := groundSelects(scan)
+				added := 0
+				for _, f := range foralls {
+					for _, inst := range instancesOf(f, sks, gsel, total) {
+						if !seenInst[inst.id] {
+							seenInst[inst.id] = true
+							extra = append(extra, inst)
+							added++
+						}
+					}
 				}
+				for _, g := range gfs {
+					for _, inst := range instancesOf(g.f, sks, gsel, total) {
+						gi := Not(And(append(append([]*Term(nil), g.guards...), Not(inst))...))
+						if !seenInst[gi.id] {
+							seenInst[gi.id] = true
+							extra = append(extra, gi)
+							added++
+						}
+					}
+				}
+				if added == 0 || os.Getenv("SNESVC_ONEROUND") != "" {
+					break
+				}
+				var qf []*Term
+				for _, a := range t.Args {
+					if a.Op != "forall" {
+						qf = append(qf, a)
+					}
+				}
+				scan = mk("and", BoolS, 0, "", 0, 0, append(qf, extra...)...)
 			}
 		}
 		ch := len(extra) > 0
@@ -193,12 +225,36 @@ func skolemsOf(t *Term) []*Term {
 	return out
 }
 
-// groundSelects: for every closed array term, the closed index terms it is read at in the quantifier-free
-// conjuncts of a conjunction (the ground side of select-triggers)
-func groundSelects(t *Term) map[int64][]*Term {
-	out := map[int64][]*Term{}
+// arrayKey: the base array variable of an array-valued term and the number of selects on the way to it
+// (select(select(A, m), j) reads A at depth 1); stores are skipped. Bound variables may occur in index positions.
+func arrayKey(a *Term) (int64, int, bool) {
+	depth := 0
+	for {
+		switch a.Op {
+		case "store":
+			a = a.Args[0]
+		case "select":
+			a = a.Args[0]
+			depth++
+		case "var":
+			return a.id, depth, true
+		default:
+			return 0, 0, false
+		}
+	}
+}
+
+type trigKey struct {
+	root  int64
+	depth int
+}
+
+// groundSelects: for every base array (and nesting depth), the closed index terms it is read at in the
+// quantifier-free conjuncts of a conjunction (the ground side of select-triggers)
+func groundSelects(t *Term) map[trigKey][]*Term {
+	out := map[trigKey][]*Term{}
 	seen := map[int64]bool{}
-	have := map[[2]int64]bool{}
+	have := map[[3]int64]bool{}
 	var walk func(t *Term)
 	walk = func(t *Term) {
 		if seen[t.id] {
@@ -209,13 +265,12 @@ func groundSelects(t *Term) map[int64][]*Term {
 			return
 		}
 		if t.Op == "select" && !t.bound {
-			a, i := t.Args[0], t.Args[1]
-			for a.Op == "store" {
-				a = a.Args[0]
-			}
-			if k := [2]int64{a.id, i.id}; !have[k] && len(out[a.id]) < 12 {
-				have[k] = true
-				out[a.id] = append(out[a.id], i)
+			if root, depth, ok := arrayKey(t.Args[0]); ok {
+				k := trigKey{root, depth}
+				if hk := [3]int64{root, int64(depth), t.Args[1].id}; !have[hk] && len(out[k]) < 12 {
+					have[hk] = true
+					out[k] = append(out[k], t.Args[1])
+				}
 			}
 		}
 		for _, a := range t.Args {
@@ -230,9 +285,9 @@ func groundSelects(t *Term) map[int64][]*Term {
 	return out
 }
 
-// triggerArrays: the closed arrays that the body reads exactly at the bound variable bv
-func triggerArrays(body, bv *Term) []int64 {
-	var out []int64
+// triggerArrays: the base arrays (with depth) that the body reads exactly at the bound variable bv
+func triggerArrays(body, bv *Term) []trigKey {
+	var out []trigKey
 	seen := map[int64]bool{}
 	var walk func(t *Term)
 	walk = func(t *Term) {
@@ -240,8 +295,10 @@ func triggerArrays(body, bv *Term) []int64 {
 			return
 		}
 		seen[t.id] = true
-		if t.Op == "select" && t.Args[1] == bv && !t.Args[0].bound {
-			out = append(out, t.Args[0].id)
+		if t.Op == "select" && t.Args[1] == bv {
+			if root, depth, ok := arrayKey(t.Args[0]); ok {
+				out = append(out, trigKey{root, depth})
+			}
 		}
 		for _, a := range t.Args {
 			walk(a)
@@ -254,7 +311,7 @@ func triggerArrays(body, bv *Term) []int64 {
 // instancesOf: instances of a (nested) universal formula at the skolem constants, at the ground index terms
 // matched by its select-triggers and — while the number of combinations stays under the cap — at the neighbours
 // k+1 / k-1 of integer skolem constants (chains: element k against element k+1)
-func instancesOf(f *Term, sks []*Term, gsel map[int64][]*Term, total *int) []*Term {
+func instancesOf(f *Term, sks []*Term, gsel map[trigKey][]*Term, total *int) []*Term {
 	if os.Getenv("SNESVC_NONEIGH") == "" && f.Args[1].Op != "forall" { // single binder only: neighbours of several binders are clutter
 		var ext []*Term
 		ext = append(ext, sks...)
@@ -270,7 +327,31 @@ func instancesOf(f *Term, sks []*Term, gsel map[int64][]*Term, total *int) []*Te
 	return instancesOf1(f, sks, gsel, total)
 }
 
-func instancesOf1(f *Term, sks []*Term, gsel map[int64][]*Term, total *int) []*Term {
+// readsNeighbour: the body reads some array at bv plus / minus a constant
+func readsNeighbour(body, bv *Term) bool {
+	seen := map[int64]bool{}
+	found := false
+	var walk func(t *Term)
+	walk = func(t *Term) {
+		if found || seen[t.id] || !t.bound {
+			return
+		}
+		seen[t.id] = true
+		if t.Op == "select" {
+			if i := t.Args[1]; (i.Op == "bvadd" || i.Op == "bvsub") && len(i.Args) == 2 && ((i.Args[0] == bv && i.Args[1].IsConst()) || (i.Args[1] == bv && i.Args[0].IsConst())) {
+				found = true
+				return
+			}
+		}
+		for _, a := range t.Args {
+			walk(a)
+		}
+	}
+	walk(body)
+	return found
+}
+
+func instancesOf1(f *Term, sks []*Term, gsel map[trigKey][]*Term, total *int) []*Term {
 	var binders []*Term
 	body := f
 	for body.Op == "forall" {
@@ -303,8 +384,25 @@ func instancesOf1(f *Term, sks []*Term, gsel map[int64][]*Term, total *int) []*T
 			return nil
 		}
 		combos *= len(cands[i])
-		if combos > hintCapPerForall {
-			return nil
+	}
+	if combos > hintCapPerForall {
+		// too many combinations: keep the first candidates of every binder (skolem constants come first, then the
+		// trigger matches in order of occurrence) so that the product fits
+		per := 1
+		for {
+			p := 1
+			for range binders {
+				p *= per + 1
+			}
+			if p > hintCapPerForall {
+				break
+			}
+			per++
+		}
+		for i := range cands {
+			if len(cands[i]) > per {
+				cands[i] = cands[i][:per]
+			}
 		}
 	}
 	var out []*Term
